@@ -188,7 +188,7 @@ fn run_cancelall(kind: &str, seed: u64, replay: Option<Vec<u8>>) -> (sched::Outc
     let mut bodies: Vec<Body> = vec![];
     // listener tasks
     for li in 0..k {
-        let (tasks, done) = (tasks.clone(), done.clone());
+        let (tasks, done, spans) = (tasks.clone(), done.clone(), spans.clone());
         bodies.push(Box::new(move |ctx| {
             let lt = 10 + li;
             loop {
@@ -204,7 +204,16 @@ fn run_cancelall(kind: &str, seed: u64, replay: Option<Vec<u8>>) -> (sched::Outc
                 g[li].stream = Some(s);
                 match r {
                     Some(Some(v)) => { g[li].parked = false; g[li].flag.0.store(true, SeqCst); drop(g); ctx.ret(&format!("item {v}")); }
-                    Some(None) => { g[li].ended = true; drop(g); ctx.ret("end"); }
+                    Some(None) => {
+                        g[li].ended = true;
+                        // an executor drops its stream as soon as it ended (this is what `close()` waits for)
+                        let mut st = g[li].stream.take().unwrap();
+                        drop(g); ctx.ret("end");
+                        let c = ctx.call(lt, &format!("drop {sid}"));
+                        unsafe { std::mem::ManuallyDrop::drop(&mut st); }
+                        let r = ctx.ret("unit");
+                        spans.lock().unwrap().push((format!("drop {sid}"), c, r));
+                    }
                     None => { g[li].parked = true; drop(g); ctx.ret("pending"); }
                 }
             }
@@ -216,16 +225,19 @@ fn run_cancelall(kind: &str, seed: u64, replay: Option<Vec<u8>>) -> (sched::Outc
         bodies.push(Box::new(move |ctx| {
             for _ in 0..ctx.rand(4) { ctx.yield_point("h.delay", 0); }
             // (being made runnable is not being run: the listener's task may have started another poll meanwhile)
-            let (mut s, sid) = loop {
+            let got = loop {
                 let t2 = tasks.clone();
-                ctx.block_until(Box::new(move || t2.lock().unwrap()[victim].stream.is_some()));
+                ctx.block_until(Box::new(move || { let g = t2.lock().unwrap(); g[victim].stream.is_some() || g[victim].ended }));
                 let mut g = tasks.lock().unwrap();
-                if let Some(s) = g[victim].stream.take() { g[victim].removed = true; break (s, g[victim].sid) }
+                if g[victim].ended { break None }          // it ended (and dropped its stream) by itself meanwhile
+                if let Some(s) = g[victim].stream.take() { g[victim].removed = true; break Some((s, g[victim].sid)) }
             };
-            let c = ctx.call(20, &format!("drop {sid}"));
-            unsafe { std::mem::ManuallyDrop::drop(&mut s); }
-            let r = ctx.ret("unit");
-            spans.lock().unwrap().push((format!("drop {sid}"), c, r));
+            if let Some((mut s, sid)) = got {
+                let c = ctx.call(20, &format!("drop {sid}"));
+                unsafe { std::mem::ManuallyDrop::drop(&mut s); }
+                let r = ctx.ret("unit");
+                spans.lock().unwrap().push((format!("drop {sid}"), c, r));
+            }
             done.fetch_add(1, SeqCst);
         }));
     }
@@ -259,17 +271,23 @@ fn run_cancelall(kind: &str, seed: u64, replay: Option<Vec<u8>>) -> (sched::Outc
         let g = tasks.lock().unwrap_or_else(|e| e.into_inner());
         let sp = spans.lock().unwrap_or_else(|e| e.into_inner());
         let ca = sp.iter().find(|x| x.0 == "cancelall").cloned();
-        let dr = sp.iter().find(|x| x.0.starts_with("drop")).cloned();
-        let vsid = g[victim].sid;
         for (li, t) in g.iter().enumerate() {
             if !t.removed && !t.ended {
-                // cause class: what of the removal fell inside the cancel_all call?
-                let cause = match (&ca, &dr) {
-                    (Some(c), Some(d)) if d.1 <= c.2 && d.2 >= c.1 => {
-                        let writes_inside = outcome.trace[c.1..=c.2.min(outcome.trace.len() - 1)].iter().any(|l| l.starts_with("pt 20 sm.sync.write") || l.starts_with("pt 20 sm.sync.sentinel"));
-                        if vsid < t.sid && writes_inside { "list_rewritten_during_cancel_all_by_removal_of_lower_id" } else if vsid < t.sid { "removal_of_lower_id_in_progress_but_list_not_touched_during_cancel_all" } else { "removal_of_higher_id_in_progress" } }
-                    _ => "no_removal_overlaps_cancel_all" };
-                viol.push(("cancelled_stream_never_ended".into(), format!("Multi {kind}: cancel_all_streams() returned, yet listener #{li} (stream id {}) is parked, un-notified and never ended (listener with stream id {vsid} was being removed) [cause={cause}]", t.sid)));
+                // cause class: which removals (by the remover thread, or of streams that ended because of this very cancel_all)
+                // overlapped the cancel_all call, were they of lower stream ids, and did a rewrite step of `used_streams` fall inside it?
+                let mut lower = vec![]; let mut higher = vec![];
+                let cause = match &ca {
+                    Some(c) => {
+                        for d in sp.iter().filter(|x| x.0.starts_with("drop ") && x.1 <= c.2 && x.2 >= c.1) {
+                            let dsid: u32 = d.0[5..].parse().unwrap_or(u32::MAX);
+                            if dsid < t.sid { lower.push(dsid) } else { higher.push(dsid) }
+                        }
+                        let writes_inside = outcome.trace[c.1..=c.2.min(outcome.trace.len() - 1)].iter().any(|l| l.starts_with("pt ") && !l.starts_with("pt 21 ") && (l.contains(" sm.sync.write ") || l.contains(" sm.sync.sentinel ")));
+                        if !lower.is_empty() && writes_inside { "list_rewritten_during_cancel_all_by_removal_of_lower_id" }
+                        else if !lower.is_empty() { "removal_of_lower_id_in_progress_but_list_not_touched_during_cancel_all" }
+                        else if !higher.is_empty() { "removal_of_higher_id_in_progress" } else { "no_removal_overlaps_cancel_all" } }
+                    None => "no_cancel_all" };
+                viol.push(("cancelled_stream_never_ended".into(), format!("Multi {kind}: cancel_all_streams() returned, yet listener #{li} (stream id {}) is parked, un-notified and never ended (streams removed meanwhile: lower ids {lower:?}, higher ids {higher:?}) [cause={cause}]", t.sid)));
             }
         }
     }
